@@ -20,19 +20,19 @@ type Obligation struct {
 	pruneAlt bool
 	pruned   int
 	weakSide bool
-	AsFact Term `json:"-"` // the clause as it is assumed after being checked
-	Name   string   `json:"name"`
-	Props  []string `json:"props"`
-	Kind   string   `json:"kind"` // post site inv-init inv-step pre safe cover lemma frame anchor
-	Fn     string   `json:"fn"`
-	Anchor string   `json:"anchor"`
-	Label  string   `json:"label"`
-	Src    string   `json:"src"`
-	Pos    string   `json:"pos"`
-	PC     Term     `json:"-"`
-	Goal   Term     `json:"-"`
-	Cover  bool     `json:"cover"`
-	GenErr string   `json:"gen_error,omitempty"`
+	AsFact   Term     `json:"-"` // the clause as it is assumed after being checked
+	Name     string   `json:"name"`
+	Props    []string `json:"props"`
+	Kind     string   `json:"kind"` // post site inv-init inv-step pre safe cover lemma frame anchor
+	Fn       string   `json:"fn"`
+	Anchor   string   `json:"anchor"`
+	Label    string   `json:"label"`
+	Src      string   `json:"src"`
+	Pos      string   `json:"pos"`
+	PC       Term     `json:"-"`
+	Goal     Term     `json:"-"`
+	Cover    bool     `json:"cover"`
+	GenErr   string   `json:"gen_error,omitempty"`
 
 	nDecls, nFacts, nStr int
 	smt                  *SMT
@@ -100,6 +100,12 @@ func (x *Exec) obligeClause(fr *Frame, st *State, c *Clause, kind, anchor string
 		err = werr
 		if err == nil {
 			goal, err = env.evalBool(c.E)
+			if err != nil && env.siteOptional {
+				// The assertion cannot even be stated at this call (it names something that is
+				// not in scope here): then this must not be a call the where clause selects.
+				x.note("assertion not expressible at this optional site; proving the site is not selected: " + err.Error())
+				goal, err = "false", nil
+			}
 			goal = Implies(w, goal)
 		}
 	} else {
@@ -370,12 +376,28 @@ func discharge(obls []*Obligation, dir string, timeoutS int, workers int) {
 	wg.Wait()
 	// Undecided proof obligations are re-run one at a time with a longer budget: a timeout
 	// under sixteen-fold solver contention must not be mistaken for a failed proof.
+	// The retry only exists to keep a loaded machine from raising a false alarm. Once two retried
+	// obligations stay undecided, or anything was refuted, the check fails whatever the rest
+	// says; the remaining undecided ones are then reported as they are.
+	stillUnknown := 0
+	for _, o := range obls {
+		if o.Status == "failed" {
+			stillUnknown = 2
+		}
+	}
 	for _, o := range obls {
 		if o.Status == "unknown" && !o.Cover && o.InBaseline {
+			if stillUnknown >= 2 {
+				o.Detail = "not retried (the check already fails): " + o.Detail
+				continue
+			}
 			first := o.Detail
 			o.Seconds = 0
 			dischargeOne(o, dir, timeoutS*4)
 			o.Detail = "retry: " + o.Detail + " | first: " + first
+			if o.Status == "unknown" {
+				stillUnknown++
+			}
 		}
 	}
 }
@@ -504,8 +526,23 @@ func dischargeOne(o *Obligation, dir string, timeoutS int) {
 		}
 	}
 	if o.Cover {
-		// vacuity guard: what matters is that the path condition is not refuted
+		// vacuity guard: what matters is that the path condition is not refuted. When the solver
+		// cannot decide the full query, decide it without the quantified assumptions: if even
+		// that part is contradictory the path is vacuous for sure; if it is satisfiable the
+		// ground part of the contract (requires, path conditions, site facts) is consistent.
 		o.Status = "cover-inconclusive"
+		gf := strings.TrimSuffix(file, ".smt2") + ".ground.smt2"
+		if os.WriteFile(gf, []byte(o.smtTextOpt(false, true)), 0o644) == nil {
+			res, dt, _ := runSolver(solvers[0], gf, timeoutS)
+			o.Seconds += dt
+			details = append(details, fmt.Sprintf("ground-part:%s(%.2fs)", res, dt))
+			switch res {
+			case "sat":
+				o.Status, o.Solver = "covered-ground", solvers[0].name
+			case "unsat":
+				o.Status, o.Solver = "vacuous", solvers[0].name
+			}
+		}
 	}
 	o.Detail = strings.Join(details, " ")
 }
